@@ -19,11 +19,10 @@
    * RENAME creates missing superior names of the destination (RFC 3501 6.3.5 SHOULD);
    * RENAME INBOX moves the messages (flags intact, UIDs assigned by the new mailbox) and leaves
      INBOX empty, inferiors of INBOX stay;
-   * names that MH cannot hold (a level of only digits, only white space) are refused by
-     CREATE/RENAME;
+   * names that MH cannot hold (only digits, only white space) are refused by CREATE/RENAME;
    * guard [name_ok]: names with an empty level, and names of more than one level whose first
-     level is a spelling of INBOX other than "inbox", are outside the reference model
-     (refused, nothing changes). *)
+     level is a spelling of INBOX other than "inbox" or which have a level of digits only, are
+     outside the reference model (refused, nothing changes). *)
 From Coq Require Import List Ascii String Bool ZArith.
 Import ListNotations.
 Open Scope Z_scope.
@@ -83,15 +82,19 @@ Definition is_digit (c : ascii) : bool := let k := nat_of_ascii c in Nat.leb 48 
 Definition is_space (c : ascii) : bool :=
   let k := nat_of_ascii c in Nat.eqb k 32 || (Nat.leb 9 k && Nat.leb k 13).
 
-(* inside the reference model at all *)
+Definition all_digits (c : comp) : bool := match c with [] => false | _ :: _ => forallb is_digit c end.
+(* inside the reference model at all: no empty level, no '/' inside a level; for names of more
+   than one level: the first level is not a spelling of INBOX other than "inbox", and no level
+   consists of digits only (MH keeps the messages of a folder under such names) *)
 Definition name_ok (n : name) : bool :=
   match n with [] => false | _ :: _ => true end &&
   forallb (fun c => match c with [] => false | _ :: _ => true end &&
                     negb (existsb (Ascii.eqb "/"%char) c)) n &&
-  match n with c :: _ :: _ => implb (ceqb (lower c) (la "inbox")) (ceqb c (la "inbox")) | _ => true end.
-(* acceptable as the name of a new mailbox: not INBOX, no level that is only digits (MH keeps
-   the messages of a folder under such names), not only white space *)
-Definition all_digits (c : comp) : bool := match c with [] => false | _ :: _ => forallb is_digit c end.
+  match n with
+  | c :: _ :: _ => implb (ceqb (lower c) (la "inbox")) (ceqb c (la "inbox")) && negb (existsb all_digits n)
+  | _ => true
+  end.
+(* acceptable as the name of a new mailbox: not INBOX, not only digits, not only white space *)
 Definition new_name_ok (n : name) : bool :=
   negb (is_inbox n) && negb (existsb all_digits n) && negb (forallb is_space (flat n)).
 
